@@ -2,10 +2,12 @@
 Helper lemmas for C13: `parseMouseEvent` on SGR reports.
 -/
 import VaxisModel.Spec.TermInput
+import VaxisModel.Lemmas.KeyDecode
 
 namespace VaxisModel.Lemmas.TermInput
 open VaxisModel.Model.Key VaxisModel.Model.Mouse VaxisModel.Model.TermKey VaxisModel.Model.TermMouse
-open VaxisModel.Spec.KeyEnc VaxisModel.Spec.TermInput VaxisModel.Gen.Keys
+open VaxisModel.Spec.KeyEnc VaxisModel.Spec.TermInput VaxisModel.Gen.Keys VaxisModel.Gen.TermKeys
+open VaxisModel.Lemmas.KeyMatch VaxisModel.Lemmas.KeyDecode
 
 /-- Every button of the API survives the SGR button field (press, release, motion = +32). -/
 theorem parse_back : ∀ b ∈ buttonConsts,
@@ -21,6 +23,66 @@ theorem parse_pos (inter : List Int) (b c r fin : Int) :
   split
   · rfl
   · simp
+
+
+theorem lookup_none_of_lt {α : Type} (kc : Int) : ∀ tbl : List (Int × α), (∀ e ∈ tbl, kc < e.1) → lookup kc tbl = none
+  | [], _ => rfl
+  | (k, v) :: rest, h => by
+    have h1 : kc ≠ k := by have := h (k, v) (by simp); simp at this; omega
+    simp [lookup, h1, lookup_none_of_lt kc rest (fun e he => h e (by simp [he]))]
+
+/-- Every key of the term tables is a special key (above the Unicode range). -/
+theorem term_tables_special :
+    (keymap.all fun e => decide (maxRune < e.1)) && (cursorKeysApplicationMode.all fun e => decide (maxRune < e.1)) &&
+    (cursorKeysNormalMode.all fun e => decide (maxRune < e.1)) && (numericKeymap.all fun e => decide (maxRune < e.1)) &&
+    (applicationKeymap.all fun e => decide (maxRune < e.1)) && (xtermKeymap.all fun e => decide (maxRune < e.1)) = true := by
+  decide
+
+theorem tbl_none {α : Type} (tbl : List (Int × α)) (h : (tbl.all fun e => decide (maxRune < e.1)) = true)
+    (kc : Int) (hk : kc < maxRune) : lookup kc tbl = none := by
+  apply lookup_none_of_lt
+  intro e he
+  have := List.all_eq_true.mp h e he
+  simp only [decide_eq_true_eq] at this
+  omega
+
+/-- On a character key the table-driven part of the encoder only produces the plain character. -/
+theorem encodeTables_char (kc : Int) (xm : Nat) (pam ckm : Bool) (hk : kc < maxRune) (htab : kc ≠ KeyTab ∨ xm ≠ ModShift) :
+    encodeTables kc xm pam ckm = if xm = 0 then some (strOfRune kc) else none := by
+  have h := term_tables_special
+  simp only [Bool.and_eq_true] at h
+  obtain ⟨⟨⟨⟨⟨h1, h2⟩, h3⟩, h4⟩, h5⟩, h6⟩ := h
+  have e1 := tbl_none keymap h1 kc hk
+  have e2 := tbl_none cursorKeysApplicationMode h2 kc hk
+  have e3 := tbl_none cursorKeysNormalMode h3 kc hk
+  have e4 := tbl_none numericKeymap h4 kc hk
+  have e5 := tbl_none applicationKeymap h5 kc hk
+  have e6 := tbl_none xtermKeymap h6 kc hk
+  unfold encodeTables
+  by_cases hx : xm = 0
+  · cases pam <;> cases ckm <;> simp [hx, e1, e2, e3, e4, e5, hk]
+  · have : ¬(kc = KeyTab ∧ xm = ModShift) := by
+      rcases htab with h | h
+      · exact fun hh => h hh.1
+      · exact fun hh => h hh.2
+    simp [hx, e6, this]
+
+theorem and7 (m b : Nat) (hb : 7 &&& b = b) : m &&& b = (m &&& 7) &&& b := by
+  rw [Nat.and_assoc, hb]
+
+/-- The model's `xtermMods` expression is `mods & 7`. -/
+theorem xm_eq (m : Nat) : (m &&& ModShift) ||| (m &&& ModAlt) ||| (m &&& ModCtrl) = m &&& 7 := by
+  apply Nat.eq_of_testBit_eq; intro i
+  simp only [Nat.testBit_or, Nat.testBit_and]
+  by_cases h : i < 3
+  · have : i = 0 ∨ i = 1 ∨ i = 2 := by omega
+    rcases this with rfl | rfl | rfl <;> simp [ModShift, ModAlt, ModCtrl] <;> cases m.testBit _ <;> decide
+  · have h1 : ModShift.testBit i = false := Nat.testBit_lt_two_pow (Nat.lt_of_lt_of_le (by decide : ModShift < 2 ^ 3) (Nat.pow_le_pow_right (by decide) (by omega)))
+    have h2 : ModAlt.testBit i = false := Nat.testBit_lt_two_pow (Nat.lt_of_lt_of_le (by decide : ModAlt < 2 ^ 3) (Nat.pow_le_pow_right (by decide) (by omega)))
+    have h3 : ModCtrl.testBit i = false := Nat.testBit_lt_two_pow (Nat.lt_of_lt_of_le (by decide : ModCtrl < 2 ^ 3) (Nat.pow_le_pow_right (by decide) (by omega)))
+    have h4 : (7 : Nat).testBit i = false := Nat.testBit_lt_two_pow (Nat.lt_of_lt_of_le (by decide : 7 < 2 ^ 3) (Nat.pow_le_pow_right (by decide) (by omega)))
+    simp [h1, h2, h3, h4]
+
 
 
 end VaxisModel.Lemmas.TermInput
